@@ -421,6 +421,21 @@ def ast_fingerprint(path):
     return hashlib.sha256(ast.dump(tree).encode()).hexdigest()[:20]
 
 
+def anchors_for(pid, mod):
+    """source files a property's model mirrors: the module's ANCHORS, else anchors.files of properties.jsonl"""
+    a = getattr(mod, "ANCHORS", None)
+    if a:
+        return list(a)
+    try:
+        for line in open(os.path.join(VERIF, "properties.jsonl")):
+            p = json.loads(line)
+            if p["id"] == pid:
+                return [f for f in p["anchors"]["files"] if f.endswith(".py")]
+    except Exception:
+        pass
+    return []
+
+
 def changed_anchor_files(anchors):
     """anchored source files whose AST differs from the one the model was last validated against
     (harness/fingerprints.json, regenerated with harness/fingerprint.py after every accepted change of /repo)"""
